@@ -935,7 +935,8 @@ class Columns(Widget, WidgetContainerMixin, WidgetContainerListContentsMixin):
 
         if len(size) == 1:
             if heights:
-                max_height = max(heights.values())
+                # at least one row, as rows() reports (all flow columns may be hidden for lack of space)
+                max_height = max(1, *heights.values())
                 if box_need_height:
                     warnings.warn(
                         f"Widgets in columns {box_need_height} "
